@@ -1,3 +1,4 @@
+pub mod asyncp;
 pub mod common;
 pub mod more;
 pub mod registry;
